@@ -352,7 +352,15 @@ func caseC11(t TB, prog *Program) {
 		}
 	}
 	// internal inconsistency is judged on the final schema.json (faults may cancel)
+	tampered := inconsistent
 	inconsistent = !schemaRemoved && schemaInconsistent(w.Schema)
+	if tampered && !inconsistent && !schemaRemoved {
+		// tuple-level faults that later faults cancelled structurally can leave an index that is
+		// well formed but holds another object's value: value tampering is outside the fault space
+		// of the property (removed/added files, removed entries, removed schema, inconsistency)
+		st.Exclude("cancelled-inconsistency-out-of-domain")
+		return
+	}
 	divergent := len(fileSet) != len(indexSet)
 	for id := range fileSet {
 		if !indexSet[id] {
